@@ -850,3 +850,102 @@ DTR = Unit(['C18', 'C09'], OPQ + 'compute_derived_trace', _dt_params, pre=_dt_pr
            doc='rank r of R processes (2..3 ranks x 1..4 samples at code level, symbolic values and weights, ties included): the result '
                'equals the single-process one -- trace in sample order, summaries over all samples; allreduce(list, SUM) = rank-ordered '
                'concatenation (assumed model of the collective)')
+
+
+# ------------------------------------------------------------------ MultiNest / PolyChord get_solution: one yield per stored solution (mode)
+def _mgs_params(attr, cls, stats):
+    def params(c):
+        d = _c07._view_params(c)
+        combo = _c07._COMBOTAB[c.choice('combo')]
+        names = [('log_' + n if pr == _c07.LOG else n) for n, pm, pr in combo]
+        S = c.choice('S')
+        N = c.int('N')
+        sols = {}
+        for k in range(S):
+            sols['solution%d' % k] = {'fit_params': {nm: {'nest_map': c.real('map%d_%s' % (k, nm)), 'value': c.real('med%d_%s' % (k, nm))} for nm in names},
+                                      'tracedata': c.array('samples%d' % k, (N, len(names))), 'weights': c.array('weights%d' % k, (N,))}
+        out = {'solutions': sols}
+        if stats:
+            out['NEST_stats'] = {'modes': [{'local log-evidence': c.real('lz%d' % k), 'local log-evidence error': c.real('lze%d' % k)} for k in range(S)]}
+        s = d['self'].attrs
+        s[attr] = out
+        d['self'] = ObjSpec(cls, **s)
+        return d
+    return params
+
+
+def _mgs_yields(attr, stats):
+    def yields(c, v0, v, k, val):
+        fx = c.fixed if c.mode != 'conc' else c.values
+        combo = _c07._combo(c)
+        names = [('log_' + n if pr == _c07.LOG else n) for n, pm, pr in combo]
+        if k >= fx['S'] or len(val) != 4:
+            return {'one_yield_per_solution': False}
+        fp = getattr(v0.self, attr)['solutions']['solution%d' % k]['fit_params']
+        idx, omap, omed, extra = val
+        d = {'solution_index': idx == k, 'lengths': len(omap) == len(names) and len(omed) == len(names)}
+        if not d['lengths']:
+            return d
+        for i, nm in enumerate(names):
+            d['map_%s' % nm] = c.Eq(omap[i], fp[nm]['nest_map'])
+            d['median_%s' % nm] = c.Eq(omed[i], fp[nm]['value'])
+        d['extras'] = [x[0] for x in extra] == (['Statistics'] if stats else []) + ['fit_params', 'tracedata', 'weights']
+        return d
+    return yields
+
+
+def _mgs_native(c, p):
+    import numpy as np
+    import taurex.core.priors as P
+    from taurex.optimizer.multinest import MultiNestOptimizer
+    s = p['self']
+    store = {}
+    fp = []
+    for t in s['fitting_parameters']:
+        store[t['name']] = t['value']
+        fp.append((t['name'], '$x$', (lambda n=t['name']: store[n]), None, t['mode'], True, list(t['bounds'])))
+    o = _quiet(MultiNestOptimizer.__new__(MultiNestOptimizer))
+    o.fitting_parameters = fp
+    o._fit_priors = {n: (P.LogUniform(bounds=[0, 1]) if e['_prior_mode'] == _c07.LOG else P.Uniform(bounds=[0, 1])) for n, e in s['_fit_priors'].items()}
+    o.fitting_priors = [o._fit_priors[t[0]] for t in fp]
+    out = s['_multinest_output']
+    o._multinest_output = {'NEST_stats': {'modes': [dict(m) for m in out['NEST_stats']['modes']]},
+                           'solutions': {k: {'fit_params': {n: dict(e) for n, e in v['fit_params'].items()},
+                                             'tracedata': np.array(v['tracedata'], dtype=float), 'weights': np.array(v['weights'], dtype=float)}
+                                         for k, v in out['solutions'].items()}}
+    vals, states = [], []
+    for item in o.get_solution():
+        vals.append((item[0], list(item[1]), list(item[2]), list(item[3])))
+        states.append(p)
+    return GenTrace(vals, states), p
+
+
+def _mgs_gen(rng):
+    d = _c07._view_gen(rng)
+    N, S = rng.randint(1, 3), rng.randint(1, 2)
+    D = len(_c07._COMBOTAB[d['combo']])
+    d.update(N=N, S=S)
+    for k in range(2):
+        d['samples%d' % k] = [[rng.uniform(-1, 1) for _ in range(D)] for _ in range(N)]
+        d['weights%d' % k] = [rng.uniform(0, 1) for _ in range(N)]
+        d['lz%d' % k], d['lze%d' % k] = rng.uniform(-9, 0), rng.uniform(0, 1)
+        for nm in ('T', 'R', 'log_T', 'log_R'):
+            d['map%d_%s' % (k, nm)], d['med%d_%s' % (k, nm)] = rng.uniform(-5, 5), rng.uniform(-5, 5)
+    return d
+
+
+_MGS_CASES = [{'combo': x, 'S': S} for x in _c07._COMBOTAB for S in (1, 2)]
+MGS = Unit('C09', 'taurex.optimizer.multinest:MultiNestOptimizer.get_solution', _mgs_params('_multinest_output', 'MultiNestOptimizer', True),
+           pre=_c07._view_pre, yields=_mgs_yields('_multinest_output', True),
+           post=lambda c, v0, v1, r: {'one_yield_per_solution': len(r) == (c.fixed if c.mode != 'conc' else c.values)['S']}, abstract=_c07._ABS,
+           cases=_MGS_CASES, native=_mgs_native, gen=_mgs_gen, bounds=[dict(N=1)], short='MultiNestOptimizer.get_solution', safety=('index',),
+           inline=['fit_names', 'fit_values'],
+           doc='one yield per stored solution (1..2 modes): its index, MAP and median vectors in fitted-parameter order taken from that '
+               'solution, statistics / fit_params / traces / weights of that solution')
+
+PGS = Unit('C09', 'taurex.optimizer.polychord:PolyChordOptimizer.get_solution', _mgs_params('_polychord_output', 'PolyChordOptimizer', False),
+           pre=_c07._view_pre, yields=_mgs_yields('_polychord_output', False),
+           post=lambda c, v0, v1, r: {'one_yield_per_solution': len(r) == c.fixed['S']}, abstract=_c07._ABS,
+           cases=_MGS_CASES, bounds=[dict(N=1)], short='PolyChordOptimizer.get_solution', safety=('index',), inline=['fit_names', 'fit_values'],
+           doc='as MultiNestOptimizer.get_solution; proof only -- pypolychord is not installed, so the module cannot be imported for the '
+               'run-time replay of the contract')
